@@ -146,6 +146,11 @@ def sweep(ctx, N, focus=False):
             n = int(rng.choice([53, 55, 60, 80, 100]))
             dflt = False
             kw = dict(r=float(10 ** rng.uniform(-1.5, 0)), step_ratio=float(rng.uniform(2.4, 3.0)), num_extrap=int(rng.integers(2, 5)))
+            if it % 3 == 1:
+                # a single extrapolation row (num_extrap = 1) from an initial radius the search brackets at once: five circles, three rows
+                g = Fam(rng, m, kinds=('log', 'inv', 'pow'))
+                n = int(rng.choice([3, 10, 20, 40]))
+                kw = dict(r=float(rng.choice([0.5, 1.0, 2.0])), step_ratio=float(rng.choice([1.6, 3.0])), num_extrap=1)
             if it % 3 == 2:
                 # a singularity at distance 0.03 .. 0.08 and an initial radius 0.3 .. 1 far outside the disc: the first circles enclose the
                 # singularity and agree with each other on garbage; only the selection stage keeps them from being returned
